@@ -156,6 +156,13 @@ def rule_CHOKE(ctx):
     calls = min(lines)
     def rejects_outside(i):
         # `if length not in A: raise` or `if length in A: ... else: raise` - read with the test made positive
+        # `if A and length not in A: raise` (A = the table itself: nothing to enforce when it is empty)
+        t0 = G.expand(gd, i.test)
+        if isinstance(t0, ast.BoolOp) and isinstance(t0.op, ast.And):
+            rest = [v for v in t0.values if ast.unparse(v) != 'self.allowed_lengths']
+            if len(rest) == 1 and isinstance(rest[0], ast.Compare) and len(rest[0].ops) == 1 and isinstance(rest[0].ops[0], ast.NotIn) \
+                    and ast.unparse(rest[0].comparators[0]) == 'self.allowed_lengths':
+                return G.always_raises(i.body)
         t, body, orelse = G.pos_if(i)
         t = G.expand(gd, t)
         if not (isinstance(t, ast.Compare) and len(t.ops) == 1 and isinstance(t.ops[0], ast.In) and ast.unparse(t.comparators[0]) == 'self.allowed_lengths'):
@@ -194,7 +201,7 @@ def rule_LV(ctx):
         if f is None:
             raise AnalysisError(f'anchor vanished: {key}')
         ok = None
-        for i in own_walk(f.node):
+        for _g, i in G.route_walk(m, f):
             if isinstance(i, ast.If) and G.raises_in(i.body):
                 for d in G.disjuncts(i.test):
                     parts = d.values if isinstance(d, ast.BoolOp) else [d]
